@@ -157,10 +157,11 @@ Definition pair_mem (p : list nat * list nat) (l : list (list nat * list nat)) :
 Fixpoint pair_nodupb (l : list (list nat * list nat)) : bool :=
   match l with [] => true | x :: l' => negb (pair_mem x l') && pair_nodupb l' end.
 
-(* the name views denote the same sets as the index views (as sets: equal length, mutual
-   inclusion), and the index views are duplicate-free and in range *)
+(* the name views are the position-wise images of the index views (names are positional labels and
+   may repeat: a homonym then appears as a repeated name), and the index views are duplicate-free
+   and in range *)
 Definition same_view (names idxs : list nat) (name_of : nat -> nat) : bool :=
-  Nat.eqb (length names) (length idxs) && same_setb names (map name_of idxs).
+  nat_list_eqb names (map name_of idxs).
 
 Definition views_ok (c : c02_case) (x : fconcept) : bool :=
   same_view (c_ext x) (c_ext_i x) (fun g => nth g (c_onames c) 0) &&
